@@ -121,7 +121,7 @@ Section MainLoop.
     intros oc2. destruct oc2 as [c2|]; [|exact IH].
     destruct c2; try (apply rp_bind; [apply rp_execute|]; intros st; destruct st; [exact IH|apply rp_ret]).
     - apply rp_quoted_insert. exact IH.
-    - exact IH.
+    - apply rp_bind; [apply rp_of_kq; [apply kq_of_q5, q5_refresh_line|apply kh_refresh_line]|]. intros _. exact IH.
   Qed.
 
   (* A WHOLE READ over the history H *)
